@@ -165,7 +165,7 @@ def rotate_bitmaps_to_roots(bitmaps: Arr(Int, None, 12), roots: Arr(Int, None)):
 
 # ----------------------------------------------------------------------------- the twelve comparison functions
 
-@contract("mir_eval.chord.root", props="C11 C14")
+@contract("mir_eval.chord.root", props="C11 C14 C09 C02 C12")
 def root(reference_labels: Lst(ObjT), estimated_labels: Lst(ObjT)) -> Arr(Real, None):
     raises(ValueError, when=length(reference_labels) != length(estimated_labels), props="C14")
     raises(InvalidChordException, when=length(reference_labels) == length(estimated_labels)
@@ -173,10 +173,10 @@ def root(reference_labels: Lst(ObjT), estimated_labels: Lst(ObjT)) -> Arr(Real, 
                     and all_encodable(reference_labels) and all_encodable(estimated_labels)), props="C14")
     ensures(length(result) == length(reference_labels), label='length', props="C11")
     ensures(forall(0, length(result), lambda i: result[i] == rule_root(ENC(reference_labels[i]), ENC(estimated_labels[i]))),
-            label='rule', props="C11 C09 C02")
+            label='rule', props="C11 C09 C02 C12")
 
 
-@contract("mir_eval.chord.thirds", props="C11 C14")
+@contract("mir_eval.chord.thirds", props="C11 C14 C09 C02 C12")
 def thirds(reference_labels: Lst(ObjT), estimated_labels: Lst(ObjT)) -> Arr(Real, None):
     raises(ValueError, when=length(reference_labels) != length(estimated_labels), props="C14")
     raises(InvalidChordException, when=length(reference_labels) == length(estimated_labels)
@@ -184,10 +184,10 @@ def thirds(reference_labels: Lst(ObjT), estimated_labels: Lst(ObjT)) -> Arr(Real
                     and all_encodable(reference_labels) and all_encodable(estimated_labels)), props="C14")
     ensures(length(result) == length(reference_labels), label='length', props="C11")
     ensures(forall(0, length(result), lambda i: result[i] == rule_thirds(ENC(reference_labels[i]), ENC(estimated_labels[i]))),
-            label='rule', props="C11 C09 C02")
+            label='rule', props="C11 C09 C02 C12")
 
 
-@contract("mir_eval.chord.thirds_inv", props="C11 C14")
+@contract("mir_eval.chord.thirds_inv", props="C11 C14 C09 C02 C12")
 def thirds_inv(reference_labels: Lst(ObjT), estimated_labels: Lst(ObjT)) -> Arr(Real, None):
     raises(ValueError, when=length(reference_labels) != length(estimated_labels), props="C14")
     raises(InvalidChordException, when=length(reference_labels) == length(estimated_labels)
@@ -195,10 +195,10 @@ def thirds_inv(reference_labels: Lst(ObjT), estimated_labels: Lst(ObjT)) -> Arr(
                     and all_encodable(reference_labels) and all_encodable(estimated_labels)), props="C14")
     ensures(length(result) == length(reference_labels), label='length', props="C11")
     ensures(forall(0, length(result), lambda i: result[i] == rule_thirds_inv(ENC(reference_labels[i]), ENC(estimated_labels[i]))),
-            label='rule', props="C11 C09 C02")
+            label='rule', props="C11 C09 C02 C12")
 
 
-@contract("mir_eval.chord.triads", props="C11 C14")
+@contract("mir_eval.chord.triads", props="C11 C14 C09 C02 C12")
 def triads(reference_labels: Lst(ObjT), estimated_labels: Lst(ObjT)) -> Arr(Real, None):
     raises(ValueError, when=length(reference_labels) != length(estimated_labels), props="C14")
     raises(InvalidChordException, when=length(reference_labels) == length(estimated_labels)
@@ -206,10 +206,10 @@ def triads(reference_labels: Lst(ObjT), estimated_labels: Lst(ObjT)) -> Arr(Real
                     and all_encodable(reference_labels) and all_encodable(estimated_labels)), props="C14")
     ensures(length(result) == length(reference_labels), label='length', props="C11")
     ensures(forall(0, length(result), lambda i: result[i] == rule_triads(ENC(reference_labels[i]), ENC(estimated_labels[i]))),
-            label='rule', props="C11 C09 C02")
+            label='rule', props="C11 C09 C02 C12")
 
 
-@contract("mir_eval.chord.triads_inv", props="C11 C14")
+@contract("mir_eval.chord.triads_inv", props="C11 C14 C09 C02 C12")
 def triads_inv(reference_labels: Lst(ObjT), estimated_labels: Lst(ObjT)) -> Arr(Real, None):
     raises(ValueError, when=length(reference_labels) != length(estimated_labels), props="C14")
     raises(InvalidChordException, when=length(reference_labels) == length(estimated_labels)
@@ -217,10 +217,10 @@ def triads_inv(reference_labels: Lst(ObjT), estimated_labels: Lst(ObjT)) -> Arr(
                     and all_encodable(reference_labels) and all_encodable(estimated_labels)), props="C14")
     ensures(length(result) == length(reference_labels), label='length', props="C11")
     ensures(forall(0, length(result), lambda i: result[i] == rule_triads_inv(ENC(reference_labels[i]), ENC(estimated_labels[i]))),
-            label='rule', props="C11 C09 C02")
+            label='rule', props="C11 C09 C02 C12")
 
 
-@contract("mir_eval.chord.tetrads", props="C11 C14")
+@contract("mir_eval.chord.tetrads", props="C11 C14 C09 C02 C12")
 def tetrads(reference_labels: Lst(ObjT), estimated_labels: Lst(ObjT)) -> Arr(Real, None):
     raises(ValueError, when=length(reference_labels) != length(estimated_labels), props="C14")
     raises(InvalidChordException, when=length(reference_labels) == length(estimated_labels)
@@ -228,10 +228,10 @@ def tetrads(reference_labels: Lst(ObjT), estimated_labels: Lst(ObjT)) -> Arr(Rea
                     and all_encodable(reference_labels) and all_encodable(estimated_labels)), props="C14")
     ensures(length(result) == length(reference_labels), label='length', props="C11")
     ensures(forall(0, length(result), lambda i: result[i] == rule_tetrads(ENC(reference_labels[i]), ENC(estimated_labels[i]))),
-            label='rule', props="C11 C09 C02")
+            label='rule', props="C11 C09 C02 C12")
 
 
-@contract("mir_eval.chord.tetrads_inv", props="C11 C14")
+@contract("mir_eval.chord.tetrads_inv", props="C11 C14 C09 C02 C12")
 def tetrads_inv(reference_labels: Lst(ObjT), estimated_labels: Lst(ObjT)) -> Arr(Real, None):
     raises(ValueError, when=length(reference_labels) != length(estimated_labels), props="C14")
     raises(InvalidChordException, when=length(reference_labels) == length(estimated_labels)
@@ -239,10 +239,10 @@ def tetrads_inv(reference_labels: Lst(ObjT), estimated_labels: Lst(ObjT)) -> Arr
                     and all_encodable(reference_labels) and all_encodable(estimated_labels)), props="C14")
     ensures(length(result) == length(reference_labels), label='length', props="C11")
     ensures(forall(0, length(result), lambda i: result[i] == rule_tetrads_inv(ENC(reference_labels[i]), ENC(estimated_labels[i]))),
-            label='rule', props="C11 C09 C02")
+            label='rule', props="C11 C09 C02 C12")
 
 
-@contract("mir_eval.chord.majmin", props="C11 C14")
+@contract("mir_eval.chord.majmin", props="C11 C14 C09 C02 C12")
 def majmin(reference_labels: Lst(ObjT), estimated_labels: Lst(ObjT)) -> Arr(Real, None):
     raises(ValueError, when=length(reference_labels) != length(estimated_labels), props="C14")
     raises(InvalidChordException, when=length(reference_labels) == length(estimated_labels)
@@ -250,10 +250,10 @@ def majmin(reference_labels: Lst(ObjT), estimated_labels: Lst(ObjT)) -> Arr(Real
                     and all_encodable(reference_labels) and all_encodable(estimated_labels)), props="C14")
     ensures(length(result) == length(reference_labels), label='length', props="C11")
     ensures(forall(0, length(result), lambda i: result[i] == rule_majmin(ENC(reference_labels[i]), ENC(estimated_labels[i]))),
-            label='rule', props="C11 C09 C02")
+            label='rule', props="C11 C09 C02 C12")
 
 
-@contract("mir_eval.chord.majmin_inv", props="C11 C14")
+@contract("mir_eval.chord.majmin_inv", props="C11 C14 C09 C02 C12")
 def majmin_inv(reference_labels: Lst(ObjT), estimated_labels: Lst(ObjT)) -> Arr(Real, None):
     raises(ValueError, when=length(reference_labels) != length(estimated_labels), props="C14")
     raises(InvalidChordException, when=length(reference_labels) == length(estimated_labels)
@@ -261,10 +261,10 @@ def majmin_inv(reference_labels: Lst(ObjT), estimated_labels: Lst(ObjT)) -> Arr(
                     and all_encodable(reference_labels) and all_encodable(estimated_labels)), props="C14")
     ensures(length(result) == length(reference_labels), label='length', props="C11")
     ensures(forall(0, length(result), lambda i: result[i] == rule_majmin_inv(ENC(reference_labels[i]), ENC(estimated_labels[i]))),
-            label='rule', props="C11 C09 C02")
+            label='rule', props="C11 C09 C02 C12")
 
 
-@contract("mir_eval.chord.sevenths", props="C11 C14")
+@contract("mir_eval.chord.sevenths", props="C11 C14 C09 C02 C12")
 def sevenths(reference_labels: Lst(ObjT), estimated_labels: Lst(ObjT)) -> Arr(Real, None):
     raises(ValueError, when=length(reference_labels) != length(estimated_labels), props="C14")
     raises(InvalidChordException, when=length(reference_labels) == length(estimated_labels)
@@ -272,10 +272,10 @@ def sevenths(reference_labels: Lst(ObjT), estimated_labels: Lst(ObjT)) -> Arr(Re
                     and all_encodable(reference_labels) and all_encodable(estimated_labels)), props="C14")
     ensures(length(result) == length(reference_labels), label='length', props="C11")
     ensures(forall(0, length(result), lambda i: result[i] == rule_sevenths(ENC(reference_labels[i]), ENC(estimated_labels[i]))),
-            label='rule', props="C11 C09 C02")
+            label='rule', props="C11 C09 C02 C12")
 
 
-@contract("mir_eval.chord.sevenths_inv", props="C11 C14")
+@contract("mir_eval.chord.sevenths_inv", props="C11 C14 C09 C02 C12")
 def sevenths_inv(reference_labels: Lst(ObjT), estimated_labels: Lst(ObjT)) -> Arr(Real, None):
     raises(ValueError, when=length(reference_labels) != length(estimated_labels), props="C14")
     raises(InvalidChordException, when=length(reference_labels) == length(estimated_labels)
@@ -283,10 +283,10 @@ def sevenths_inv(reference_labels: Lst(ObjT), estimated_labels: Lst(ObjT)) -> Ar
                     and all_encodable(reference_labels) and all_encodable(estimated_labels)), props="C14")
     ensures(length(result) == length(reference_labels), label='length', props="C11")
     ensures(forall(0, length(result), lambda i: result[i] == rule_sevenths_inv(ENC(reference_labels[i]), ENC(estimated_labels[i]))),
-            label='rule', props="C11 C09 C02")
+            label='rule', props="C11 C09 C02 C12")
 
 
-@contract("mir_eval.chord.mirex", props="C11 C14")
+@contract("mir_eval.chord.mirex", props="C11 C14 C09 C02 C12")
 def mirex(reference_labels: Lst(ObjT), estimated_labels: Lst(ObjT)) -> Arr(Real, None):
     raises(ValueError, when=length(reference_labels) != length(estimated_labels), props="C14")
     raises(InvalidChordException, when=length(reference_labels) == length(estimated_labels)
@@ -294,7 +294,7 @@ def mirex(reference_labels: Lst(ObjT), estimated_labels: Lst(ObjT)) -> Arr(Real,
                     and all_encodable(reference_labels) and all_encodable(estimated_labels)), props="C14")
     ensures(length(result) == length(reference_labels), label='length', props="C11")
     ensures(forall(0, length(result), lambda i: result[i] == rule_mirex(ENC(reference_labels[i]), ENC(estimated_labels[i]))),
-            label='rule', props="C11 C09 C02")
+            label='rule', props="C11 C09 C02 C12")
 
 
 
